@@ -223,7 +223,26 @@ func runCodec(t *testing.T, prop string, c01, c02 bool) *ev.Rec {
 		ctx := ctxs[c.I%len(ctxs)]
 		m := drawMsg(c, ctx, stdOpts(c.R))
 		classOfTree(c, ctx.Name, m.Nodes)
-		codecCase(c, ctx, m, c.R.IntN(3), c01, c02, "")
+		codecCase(c, ctx, m, c.R.IntN(4), c01, c02, "")
+	})
+	// messages with one large AVP: around the 64 KiB steps of the body reader and beyond
+	bigLens := []int{65507, 65508, 65528, 65536, 70001, 131044, 131052, 131073, 196608, 300000, 1 << 20}
+	rec.Suite("big-avps", len(bigLens)*rec.N(2, 20), func(c *ev.Case) {
+		ctx := genCtx(t)
+		n := bigLens[c.I%len(bigLens)]
+		c.Class("big-avp/len=%d", n)
+		b := make([]byte, n)
+		for i := range b {
+			b[i] = byte(i*7 + c.I)
+		}
+		nodes := []*refcodec.Node{{Code: 9009, Flags: 0x40, Kind: refcodec.Unsigned32, U: 7},
+			{Code: 9001, Flags: 0x40, Kind: refcodec.OctetString, B: b},
+			{Code: 9002, Flags: 0x40, Kind: refcodec.UTF8String, B: []byte("tail")}}
+		if c.I%2 == 1 {
+			nodes[1] = &refcodec.Node{Code: 0x00E10001, Flags: 0x80, Vendor: 4242, Kind: refcodec.Unknown, B: b}
+		}
+		m := &gen.Msg{H: refcodec.Header{Version: 1, Flags: 0x80, Code: 8388000, HopByHop: 1, EndToEnd: 2}, Nodes: nodes}
+		codecCase(c, ctx, m, c.I, c01, c02, "")
 	})
 	// chains of grouped AVPs nested 7..120 deep (the decoder accepts up to
 	// MaxGroupedAVPDepth = 128 levels)
